@@ -449,3 +449,82 @@ func faults(args map[string]string) error {
 	}
 	return nil
 }
+
+func init() {
+	cli.Register("placement big", big)
+}
+
+// big: configurations with more rules and groups than one storage page; what is served against what a restarted PD loads.
+func big(args map[string]string) error {
+	seed := int64(cli.Int(args, "seed", 1))
+	nh := cli.Int(args, "histories", 4)
+	w, err := trace.Create(args["out"])
+	if err != nil {
+		return err
+	}
+	defer w.Close()
+	rng := rand.New(rand.NewSource(seed))
+	view := func(m *placement.RuleManager) trace.Ev {
+		rs := []string{}
+		for _, r := range m.GetAllRules() {
+			rs = append(rs, fmt.Sprintf("%s/%s[%s,%s)%s*%d#%d", r.GroupID, r.ID, r.StartKeyHex, r.EndKeyHex, r.Role, r.Count, r.Index))
+		}
+		gs := []string{}
+		for _, g := range m.GetRuleGroups() {
+			if g.Index == 0 && !g.Override {
+				continue
+			}
+			gs = append(gs, fmt.Sprintf("%s#%d/%v", g.ID, g.Index, g.Override))
+		}
+		bk := []string{}
+		for k := 0; k < 256; k += 5 {
+			s := ""
+			for _, r := range m.GetRulesByKey([]byte{byte(k)}) {
+				s += r.GroupID + "/" + r.ID + " "
+			}
+			bk = append(bk, s)
+		}
+		return trace.Ev{"rules": rs, "groups": gs, "bykey": bk}
+	}
+	for h := 0; h < nh; h++ {
+		mem := kv.NewMemoryKV()
+		m := placement.NewRuleManager(core.NewStorage(mem), nil)
+		if err := m.Initialize(3, nil); err != nil {
+			return err
+		}
+		w.Reset(trace.Ev{"beh": h, "mode": "big"})
+		nrules := 60 + rng.Intn(260)
+		ngroups := 1 + rng.Intn(130)
+		for i := 0; i < nrules; i++ {
+			s := rng.Intn(250)
+			e := s + 1 + rng.Intn(255-s)
+			r := &placement.Rule{GroupID: fmt.Sprintf("g%03d", rng.Intn(ngroups)), ID: fmt.Sprintf("r%04d", i), Index: rng.Intn(3),
+				StartKeyHex: fmt.Sprintf("%02x", s), EndKeyHex: fmt.Sprintf("%02x", e), Role: placement.Voter, Count: 1 + rng.Intn(3)}
+			if rng.Intn(5) == 0 {
+				r.StartKeyHex, r.EndKeyHex = "", ""
+			}
+			if err := m.SetRule(r); err != nil {
+				return err
+			}
+			if rng.Intn(3) == 0 {
+				if err := m.SetRuleGroup(&placement.RuleGroup{ID: r.GroupID, Index: 1 + rng.Intn(5)}); err != nil {
+					return err
+				}
+			}
+			if i%40 == 39 || i == nrules-1 {
+				if rng.Intn(3) == 0 && i > 10 {
+					_ = m.DeleteRule(fmt.Sprintf("g%03d", rng.Intn(ngroups)), fmt.Sprintf("r%04d", rng.Intn(i)))
+				}
+				m2 := placement.NewRuleManager(core.NewStorage(copyKV(mem)), nil)
+				ev := trace.Ev{"ev": "big", "beh": h, "nrules": i + 1, "served": view(m)}
+				if err := m2.Initialize(3, nil); err != nil {
+					ev["restart"] = trace.Ev{"rules": []string{"<restart failed: " + err.Error() + ">"}, "groups": []string{}, "bykey": []string{}}
+				} else {
+					ev["restart"] = view(m2)
+				}
+				w.Emit(ev)
+			}
+		}
+	}
+	return nil
+}
